@@ -48,18 +48,36 @@ class Scratch:
         return True
 
     def facts(self):
-        """run the driver on the scratch tree (raises if it does not compile)"""
+        """run the driver on the scratch tree (raises if it does not compile).  Several build-output slots
+        (.cache/target, .cache/target-1, ...) let self-tests run in parallel; a slot is held under a file lock."""
         import fcntl
+        import random
         out = os.path.join(self.dir, "facts.json")
         os.makedirs(facts_mod.CACHE, exist_ok=True)
-        lock = open(os.path.join(facts_mod.CACHE, "lock"), "w")
-        fcntl.flock(lock, fcntl.LOCK_EX)
+        facts_mod.build_driver_locked()
+        nslots = int(os.environ.get("TM_SLOTS", "6") or 6)
+        held = None
+        order = list(range(nslots))
+        for k in order:
+            lk = open(os.path.join(facts_mod.CACHE, "lock" if k == 0 else "lock-%d" % k), "w")
+            try:
+                fcntl.flock(lk, fcntl.LOCK_EX | fcntl.LOCK_NB)
+                held = (k, lk)
+                break
+            except OSError:
+                lk.close()
+        if held is None:
+            k = random.randrange(nslots)
+            lk = open(os.path.join(facts_mod.CACHE, "lock" if k == 0 else "lock-%d" % k), "w")
+            fcntl.flock(lk, fcntl.LOCK_EX)
+            held = (k, lk)
+        k, lk = held
         try:
-            facts_mod.build_driver()
-            facts_mod.run_driver(out, repo=self.dir)
+            tdir = os.path.join(facts_mod.CACHE, "target" if k == 0 else "target-%d" % k)
+            facts_mod.run_driver(out, repo=self.dir, target_dir=tdir)
         finally:
-            fcntl.flock(lock, fcntl.LOCK_UN)
-            lock.close()
+            fcntl.flock(lk, fcntl.LOCK_UN)
+            lk.close()
         with open(out) as fh:
             data = json.load(fh)
         os.remove(out)
